@@ -211,7 +211,7 @@ impl Prop for BoundDominates {
     }
 
     fn rule(&self) -> String {
-        "one run = one seeded case (generated game x T in 1..64 quick / 1..2000 thorough x threshold in {0, +inf, values in the range of the bounds} x K in 1..16 x scheduler policy x stub coins): solve(Full, T, r, K, vanilla) inside one simulated execution, then the returned profile is evaluated by the independent best-response evaluator (itself cross-checked against brute force over pure strategies where a player has <= 64 of them). Every run is non-trivial (each compares a bound with an independently computed regret); distinct = distinct (configuration, scheduler-decision sequence) hashes".into()
+        "one run = one seeded case (generated game x T in 1..64 quick / 1..2000 thorough x threshold in {0, +inf, values in the range of the bounds} x K in 1..16 x scheduler policy x stub coins): solve(Full, T, r, K, vanilla) inside one simulated execution, then the returned profile is evaluated by the independent best-response evaluator (itself cross-checked against brute force over pure strategies where a player has <= 64 of them). The comparison tolerance is 2e-9 x the game's reach-weighted magnitude (not its payoff range). Every run is non-trivial (each compares a bound with an independently computed regret); distinct = distinct (configuration, scheduler-decision sequence) hashes".into()
     }
 
     fn assumptions(&self) -> Vec<String> {
